@@ -226,6 +226,14 @@ func c16r2(c *RC) {
 			cond := "default"
 			if len(cc.List) == 1 {
 				cond = replaceWord(strings.ReplaceAll(expr(cc.List[0]), " ", ""), typV, "typ")
+				if be, isBe := ast.Unparen(cc.List[0]).(*ast.BinaryExpr); isBe && be.Op == token.EQL {
+					l := replaceWord(strings.ReplaceAll(expr(be.X), " ", ""), typV, "typ")
+					r := replaceWord(strings.ReplaceAll(expr(be.Y), " ", ""), typV, "typ")
+					if r == "typ" || strings.HasPrefix(r, "typ.") {
+						l, r = r, l
+					}
+					cond = l + "==" + r
+				}
 			}
 			for _, st := range cc.Body {
 				if a, ok := st.(*ast.AssignStmt); ok && len(a.Rhs) == 1 {
